@@ -38,8 +38,7 @@ CLAIM = {
             "(C13_wrapper_reraises shows the wrappers do not give it). Trusted: Coq kernel, translator (syntactic site "
             "audit: dominance is approximated by 'earlier statement of an enclosing block'; five helper bodies are pinned "
             "by hash and were reviewed by hand), extraction, harness. Known findings: stack exhaustion on deep nesting "
-            "(no nesting limit), ParseExprEx returns an unsorted list, panics on `go ()` / `defer ()` (tuple after go/defer) and on labels "
-            "inside a lambda block outside a function body.",
+            "(no nesting limit).",
 }
 
 JUNK = [")", "]", ",", ":", ".", "=", ":=", "...", "=>", "?", "%", "/", "==", "!=", "<", ">", "<=", ">=", "&&", "||",
@@ -48,6 +47,17 @@ FILL = JUNK + ["x", "7", "(", "{", "}", "[", "+", "-", "\"s\"", "func", "map", "
 GOOD = [["var", "v", "int", ";"], ["return", ";"], ["type", "T", "int", ";"], ["const", "c", "=", "1", ";"], ["break", ";"],
         ["continue", ";"], ["go", "f", "(", ")", ";"], ["defer", "f", "(", ")", ";"], ["if", "x", "{", "}", ";"],
         ["for", "{", "}", ";"], ["switch", "{", "}", ";"], ["select", "{", "}", ";"], ["goto", "L", ";"], ["fallthrough", ";"]]
+
+
+# spelling -> constant name in token/token.go for the tokens the advance cases use (codes come from the generated table)
+SPELL = {")": "RPAREN", "]": "RBRACK", ",": "COMMA", ":": "COLON", ".": "PERIOD", "=": "ASSIGN", ":=": "DEFINE", "...": "ELLIPSIS",
+         "=>": "DRARROW", "?": "QUESTION", "%": "REM", "/": "QUO", "==": "EQL", "!=": "NEQ", "<": "LSS", ">": "GTR", "<=": "LEQ", ">=": "GEQ",
+         "&&": "LAND", "||": "LOR", "|": "OR", "<<": "SHL", ">>": "SHR", "&^": "AND_NOT", "+=": "ADD_ASSIGN", "++": "INC", "--": "DEC",
+         "->": "SRARROW", "<>": "BIDIARROW", "else": "ELSE", "import": "IMPORT", "package": "PACKAGE", "range": "RANGE", "(": "LPAREN",
+         "{": "LBRACE", "}": "RBRACE", "[": "LBRACK", "+": "ADD", "-": "SUB", "func": "FUNC", "map": "MAP", "chan": "CHAN", "struct": "STRUCT",
+         "interface": "INTERFACE", "var": "VAR", "return": "RETURN", "type": "TYPE", "const": "CONST", "break": "BREAK", "continue": "CONTINUE",
+         "go": "GO", "defer": "DEFER", "if": "IF", "for": "FOR", "switch": "SWITCH", "select": "SELECT", "goto": "GOTO",
+         "fallthrough": "FALLTHROUGH", ";": "SEMICOLON"}
 
 
 def gen_E(rng):
@@ -124,16 +134,14 @@ def gen_A(rng, spell2code):
 
 
 def run(ctx):
-    ctx.regen(["tokens", "c13parser"])
+    ctx.regen(["c13parser"])
     ctx.prove("C13")
     gen = ctx.gen_json("c13parser") if os.path.exists(os.path.join(vlib.BUILD, "gen", "c13parser.json")) else {}
-    tj = ctx.gen_json("tokens")["xgo_"]
-    sp = {v: int(k) for k, v in tj["spelling"].items() if v}
-    consts = tj["consts"]
+    consts = gen.get("token_consts", {})
 
     def spell2code(t):
-        if t in sp:
-            return sp[t]
+        if t in SPELL:
+            return consts[SPELL[t]]
         if t[0].isdigit():
             return consts["INT"]
         if t[0] == '"':
@@ -176,6 +184,7 @@ def run(ctx):
         if len(shown) < 2:
             shown.append({"kind": "A", "src": s.decode(), "model_case": mc})
     kinds["A"] = nA
+    ctx.log("kdiff: %d cases" % len(icases))
     rc1, out1 = ctx.run([impl, "kdiff"], input="\n".join(icases) + "\n")
     rc2, out2 = ctx.run([model], input="\n".join(mcases) + "\n")
     if rc1 != 0 or rc2 != 0:
@@ -199,6 +208,7 @@ def run(ctx):
               kdiff_case_kinds=kinds)
 
     # ------------------------------------------------------------------ C: direct oracle (fuzz)
+    ctx.log("kdiff done; fuzz oracle")
     nF = ctx.n(6000, 400000)
     rc, out = ctx.run([impl, "fuzz", "-seed", str(ctx.seed), "-n", str(nF), "-repo", vlib.REPO,
                        "-prefix-files", str(ctx.n(12, 60))], timeout=ctx.n(100, 3000))
@@ -216,22 +226,22 @@ def run(ctx):
                        "corpus files) + %d seeded cases (token-level mutation of corpus files, byte mutation, splice, token soup, random bytes) over "
                        "ParseFile / ParseEntry(9 file-name kinds) / ParseExprFrom / ParseExprEx and random subsets of all mode flags (Trace on a few small "
                        "inputs); seeded inputs are rewritten out of a dimension only while its deterministic witness still fails in this run "
-                       "(`go (`/`defer (`: %s; lambda block `=> {`: %s; %d inputs rewritten); sortedness of ParseExprEx is judged on the deterministic "
-                       "witnesses only; non-trivial = distinct (source, entry) with >= 8 bytes or >= 1 error" %
+                       "(`go (`/`defer (`: %s; lambda block `=> {`: %s; %d inputs rewritten); sortedness is judged on every entry point including ParseExprEx; non-trivial = distinct (source, entry) with >= 8 bytes or >= 1 error" %
                        (doc["deterministic"], doc["prefix_files"], doc["seeded"], doc.get("exclude_go_tuple"), doc.get("exclude_lambda_block"), doc.get("sanitized", 0)),
                   fuzz_by_generator=doc["by_gen"], fuzz_by_entry=doc["by_entry"], fuzz_by_outcome=doc["by_outcome"],
                   fuzz_modes_distinct=doc["modes_distinct"], fuzz_errors_per_case=doc["errors_per_case"], fuzz_input_size=doc["size"],
-                  fuzz_corpus_files=doc["corpus_files"], exprex_unsorted_seen=doc["exprex_unsorted"], walk_notes=doc.get("walk_notes") or [],
+                  fuzz_corpus_files=doc["corpus_files"], walk_notes=doc.get("walk_notes") or [],
                   fuzz_elapsed_s=round(doc["elapsed_s"], 1))
 
     # deep nesting: the parser has no nesting limit; recursion depth is linear in the input.
     # quick: 400 000 '[' under a 64 MB stack limit set in that child only (crashes in about a second);
     # thorough: additionally the default 1 GB limit with 1 500 000 '['.
+    ctx.log("fuzz done; deep-nesting witness")
     deep = [("det:deep-nesting:[:400000:maxstack64M", ["400000", "[", "64"])]
     if not ctx.quick:
         deep.append(("det:deep-nesting:[:1500000:default-stack", ["1500000", "[", "0"]))
     for key, args in deep:
-        rc, out = ctx.run([impl, "deep"] + args, timeout=300, mem_kb=6000000)
+        rc, out = ctx.run([impl, "deep"] + args, timeout=300, mem_kb=6000000, env=dict(vlib.GOENV, GOTRACEBACK="none"))
         ctx.cover(evaluations=1)
         if rc != 0 or "done" not in out:
             ctx.fail(key, "ParseFile(\"x := \" + %s x '%s') did not return: rc=%d (fatal stack overflow, not recoverable) %s"
